@@ -248,7 +248,7 @@ pub fn %(name)s() {
     kani::cover!(nsig == 2 && !lo_sat_first);
 }
 """ % {"name": name, "segmod": segmod, "RT": RT, "sid": sid, "expr": seg_expr(["s0", "s1"], [("s0", "g0"), ("s1", "g1")]), "sat_w": sat_w, "sig_w": sig_w})
-        hs.append({"name": "c10gen::%s" % name, "group": "masks", "tier": "quick" if first else "thorough",
+        hs.append({"name": "c10gen::%s" % name, "group": "masks", "tier": "thorough",
                    "bounds": "%s (%s): 2 satellites with symbolic distinct ids 1..64, 2 cells with symbolic recognised signals, any order: mask bits and total length" % (mod, gnss)})
     gen.write_gen("c10_list.rs", "\n".join(code))
     return {
